@@ -335,6 +335,7 @@ def run(ctx):
   # location-independent analyses first: an anchored rule that gives up later must not mask them
   complete_bar_keeps_the_meter(ctx)
   keys_in_range_accepted(ctx)
+  key_wraps_both_ways(ctx)
   repair_only_without_notes(ctx)
   from sa import pitfalls as _pf
   _pf.apply(ctx, 'PITFALL', [fi_ for q_, fi_ in sorted(ctx.P.module('musicxml_parser').all_functions.items()) if '<locals>' not in q_], ['case-folded-key'], {
@@ -393,6 +394,47 @@ def keys_in_range_accepted(ctx, rule='KEY/every-key-in-range-accepted'):
                norm_text(st.test)[:60], ', '.join('%+d' % k for k in refused)), construct=cons, definite=True)
   if n == 0:
     ctx.ob(rule, fi, fn, True, 'KeySignature._parse has no raise guarded by the fifths count alone', construct=cons)
+
+
+def key_wraps_both_ways(ctx, rule='KEY/wrap-both-ways'):
+  """Location-independent: the key of a transposing part is the written key moved round the circle of fifths, which has 12 positions.
+  A fold written as statements (`if / while k > 6: k -= 12`) handles one side only; that is enough exactly when the value folded is
+  already reduced (`... % 12` somewhere in what it was computed from, read through the locals).  A one-sided fold of an unreduced
+  `key - 5 * chromatic` leaves the other side unfolded: a key below -7 indexes the fifteen-entry tables from the wrong end or not at all."""
+  fi = ctx.func('musicxml_parser:Measure._parse_attributes')
+  fn = fi.node
+  folds = {}
+  for st in ast.walk(fn):
+    if not (isinstance(st, (ast.If, ast.While)) and isinstance(st.test, ast.Compare) and len(st.test.ops) == 1 and len(st.body) == 1 and not st.orelse and
+            isinstance(st.body[0], ast.AugAssign) and isinstance(st.body[0].target, ast.Name) and U.const_value(st.body[0].value) == 12):
+      continue
+    # the loader writes comparisons with the smaller side on the left (`6 < k` for `k > 6`): read both spellings
+    lft, op, rgt = st.test.left, st.test.ops[0], st.test.comparators[0]
+    name = st.body[0].target.id
+    if isinstance(lft, ast.Name) and lft.id == name and U.const_value(rgt) is not None:
+      gt, lt = isinstance(op, (ast.Gt, ast.GtE)), isinstance(op, (ast.Lt, ast.LtE))
+    elif isinstance(rgt, ast.Name) and rgt.id == name and U.const_value(lft) is not None:
+      gt, lt = isinstance(op, (ast.Lt, ast.LtE)), isinstance(op, (ast.Gt, ast.GtE))
+    else:
+      continue
+    up = gt and isinstance(st.body[0].op, ast.Sub)
+    down = lt and isinstance(st.body[0].op, ast.Add)
+    if up or down:
+      folds.setdefault(name, []).append(('above' if up else 'below', st))
+  cons = 'a key moved by a transposition is folded into the circle of fifths on both sides'
+  if not folds:
+    ctx.ob(rule, fi, fn, True, 'no statement-form fold by 12 in Measure._parse_attributes', construct=cons)
+    return
+  for name, fs in sorted(folds.items()):
+    sides = set(s for s, _st in fs)
+    st = fs[0][1]
+    defs = [d.value for d in U.walk_stmts(fn) if isinstance(d, ast.Assign) and len(d.targets) == 1 and isinstance(d.targets[0], ast.Name) and d.targets[0].id == name and d.lineno < st.lineno]
+    reduced = any(isinstance(m, ast.BinOp) and isinstance(m.op, ast.Mod) for d in defs for m in ast.walk(U.expand_locals(fn, d, at=st))) or not defs
+    ok = len(sides) == 2 or reduced
+    ctx.ob(rule, fi, st, ok, '%s is folded on both sides' % name if len(sides) == 2 else ('%s is reduced (%% 12) before the one-sided fold' % name if ok else '') if ok else
+           '`%s` folds %s only %s, and %s (= %s) is not reduced modulo 12 first: a transposition the other way leaves the key outside -7..7 - the tonic is then read from the wrong end of the '
+           'fifths table (a silent wrong key) or not found at all (IndexError)' % (norm_text(st)[:50], name, 'downwards (values above the range)' if 'above' in sides else 'upwards (values below the range)', name,
+                                                                                norm_text(U.expand_locals(fn, defs[-1], at=st))[:60]), construct=cons, definite=True)
 
 
 def zip_names(ctx):
